@@ -256,9 +256,15 @@ Qed.
 Lemma q_propagate_task c fuel : forall s t, qrel c s (propagate_task fuel s t).
 Proof.
   induction fuel as [|fuel IH]; intros s t; cbn [propagate_task].
-  - destruct (negb (is_prio_task s t)); [qq|]. destruct (task_is_runnable s t); [apply q_task_reschedule|].
+  - destruct (negb (is_prio_task s t)); [qq|].
+    set (s0 := if task_is_runnable s t then task_reschedule s t else s).
+    assert (E0 : qrel c s s0) by (unfold s0; destruct (task_is_runnable s t); [apply q_task_reschedule|qq]).
+    clearbody s0. qtr; [exact E0|]. clear E0 s. rename s0 into s.
     destruct (twaiting (gett s t)); qq.
-  - destruct (negb (is_prio_task s t)); [qq|]. destruct (task_is_runnable s t); [apply q_task_reschedule|].
+  - destruct (negb (is_prio_task s t)); [qq|].
+    set (s0 := if task_is_runnable s t then task_reschedule s t else s).
+    assert (E0 : qrel c s s0) by (unfold s0; destruct (task_is_runnable s t); [apply q_task_reschedule|qq]).
+    clearbody s0. qtr; [exact E0|]. clear E0 s. rename s0 into s.
     destruct (twaiting (gett s t)) as [l|]; [|qq].
     set (s1 := match lowner (getl s l) with Some o => propagate_task fuel s o | None => s end).
     assert (E1 : qrel c s s1) by (unfold s1; destruct (lowner (getl s l)); [apply IH|qq]).
@@ -1310,9 +1316,17 @@ Lemma propagate_task_own fuel : forall s t l0,
   llocked (getl (propagate_task fuel s t) l0) = llocked (getl s l0).
 Proof.
   induction fuel as [|fuel IH]; intros s t l0; cbn [propagate_task].
-  - destruct (negb (is_prio_task s t)); [auto|]. destruct (task_is_runnable s t); [auto|].
+  - destruct (negb (is_prio_task s t)); [auto|].
+    set (s0 := if task_is_runnable s t then task_reschedule s t else s).
+    assert (E0 : lowner (getl s0 l0) = lowner (getl s l0) /\ llocked (getl s0 l0) = llocked (getl s l0))
+      by (unfold s0; destruct (task_is_runnable s t); auto).
+    clearbody s0. destruct E0 as [<- <-]. clear s. rename s0 into s.
     destruct (twaiting (gett s t)); auto.
-  - destruct (negb (is_prio_task s t)); [auto|]. destruct (task_is_runnable s t); [auto|].
+  - destruct (negb (is_prio_task s t)); [auto|].
+    set (s0 := if task_is_runnable s t then task_reschedule s t else s).
+    assert (E0 : lowner (getl s0 l0) = lowner (getl s l0) /\ llocked (getl s0 l0) = llocked (getl s l0))
+      by (unfold s0; destruct (task_is_runnable s t); auto).
+    clearbody s0. destruct E0 as [<- <-]. clear s. rename s0 into s.
     destruct (twaiting (gett s t)) as [l|]; [|auto].
     set (s1 := match lowner (getl s l) with Some o => propagate_task fuel s o | None => s end).
     assert (E1 : forall l1, lowner (getl s1 l1) = lowner (getl s l1) /\ llocked (getl s1 l1) = llocked (getl s l1)).
